@@ -943,4 +943,86 @@ var propTwo = stats.Prop(R, "two-sessions", genTwo, checkTwo)
 
 func TestTwoSessions(t *testing.T) { rapid.Check(t, propTwo) }
 
+// Slow client: the server streams megabytes while the client, after its first read, does not read at all for
+// a while (5.5 s in the quick tier, 33 s in the thorough tier), then reads everything.  Back-pressure must
+// stall the relay, not punch holes into it.
+type SlowCase struct {
+	MB      int `json:"server_sends_mb"`
+	PauseMs int `json:"client_pause_ms"`
+}
+
+func checkSlow(c SlowCase, o *stats.Obs) error {
+	if proxy == nil || !proxy.alive() {
+		if proxy != nil {
+			proxy.stop()
+			proxy = nil
+		}
+		p, err := startProxy(false)
+		if err != nil {
+			o.Skip = true
+			return nil
+		}
+		proxy = p
+	}
+	p := proxy
+	client, err := net.DialTimeout("tcp", p.proxyAddr, 5*time.Second)
+	if err != nil {
+		o.Skip = true
+		return nil
+	}
+	defer client.Close()
+	p.upstream.(*net.TCPListener).SetDeadline(time.Now().Add(10 * time.Second))
+	server, err := p.upstream.Accept()
+	if err != nil {
+		o.Skip = true
+		return nil
+	}
+	defer server.Close()
+	data := make([]byte, c.MB<<20)
+	for i := range data {
+		data[i] = byte(i*13 + i>>9)
+	}
+	go func() { server.Write(data) }()
+	got := make([]byte, 0, len(data))
+	buf := make([]byte, 65536)
+	client.SetReadDeadline(time.Now().Add(20 * time.Second))
+	n, _ := client.Read(buf)
+	got = append(got, buf[:n]...)
+	time.Sleep(time.Duration(c.PauseMs) * time.Millisecond)
+	lastProgress := time.Now()
+	for len(got) < len(data) && time.Since(lastProgress) < 30*time.Second {
+		client.SetReadDeadline(time.Now().Add(5 * time.Second))
+		n, err := client.Read(buf)
+		if n > 0 {
+			got = append(got, buf[:n]...)
+			lastProgress = time.Now()
+		}
+		if err != nil {
+			if ne, ok := err.(net.Error); ok && ne.Timeout() {
+				continue
+			}
+			break
+		}
+	}
+	if !bytes.Equal(got, data) {
+		o.Key = "server-to-client-after-client-pause"
+		return fmt.Errorf("the server sent %d MiB, the client paused reading for %d ms and then read everything: it received different bytes: %s (proxy alive: %v)", c.MB, c.PauseMs, appsup.Diff(got, data), p.alive())
+	}
+	o.NonTrivial = true
+	o.Class(fmt.Sprintf("client-pauses-%ds", c.PauseMs/1000))
+	return nil
+}
+
+func genSlow(t *rapid.T) SlowCase {
+	c := SlowCase{MB: rapid.SampledFrom([]int{12, 16}).Draw(t, "mb"), PauseMs: 5500}
+	if os.Getenv("VERIF_TIER") == "thorough" {
+		c.PauseMs = 33000
+	}
+	return c
+}
+
+var propSlow = stats.Prop(R, "slow-client", genSlow, checkSlow)
+
+func TestSlowClient(t *testing.T) { rapid.Check(t, propSlow) }
+
 func TestReplay(t *testing.T) { R.Replay(t) }
